@@ -34,7 +34,11 @@ Ticks == << Zeros(8),                                               \* 0
             <<0, 0, 0, 0, 0, 0, 0, 128>>,                           \* 2^63
             Rep(255, 8),                                            \* 2^64-1
             Pattern((Seed * 5 + 2) % 65537, 8) >>
-CredKeys == [ms : ModSizes, hi : BOOLEAN, ex : 1..3, pr : BOOLEAN, ver : KclVersions]
+(* src: the KeySource entry (2.2.20.5.1: 0 = on-premises AD, 1 = Azure AD).  A credential is built as an AD/NGC one and the
+   caller changes Source/Usage before sealing it; the Azure AD arm is enumerated for the middle exponent only (the entry is
+   one byte wherever it appears) and carries a different usage as well (FIDO, 7), so both one-byte entries take a second value. *)
+CredKeys == {x \in [ms : ModSizes, hi : BOOLEAN, ex : 1..3, pr : BOOLEAN, ver : KclVersions, src : {0, 1}] : x.src = 0 \/ x.ex = 2}
+UsageOf(cr) == IF cr.src = 1 THEN 7 ELSE 1
 Mix(cr) == cr.ms + (IF cr.hi THEN 1 ELSE 0) + 3 * cr.ex + (IF cr.pr THEN 7 ELSE 0) + 11 * (cr.ver \div 256)
 ModulusOf(cr) == LET p == Pattern((Seed * 31 + cr.ms) % 65537, cr.ms)
                  IN [p EXCEPT ![1] = IF cr.hi THEN 128 + (p[1] % 128) ELSE 1 + (p[1] % 127)]
@@ -54,16 +58,16 @@ EncChoices(cr) == { [ew |-> w, cki |-> k, magic |-> m] :
                     w \in (IF Len(Exps[cr.ex]) = 4 THEN {"four"} ELSE {"min", "four"}),
                     k \in {"short", "vonly"},
                     m \in (IF cr.pr THEN {"std", "rsa1"} ELSE {"std"}) }
-(* a freshly built NGC credential: usage KEY_USAGE_NGC (1), source KEY_SOURCE_AD (0), CustomKeyInformation version 1 / flags 0 *)
+(* a sealed credential: usage / source as chosen above, CustomKeyInformation version 1 / flags 0 *)
 CredOf(cr, e) == KclSeal([ver |-> cr.ver, id |-> <<>>, kh |-> <<>>,
                           km |-> RsaEncodeM(KeyOf(cr), EwOf(cr, e.ew), MagicOf(cr, e.magic)),
-                          usage |-> 1, source |-> 0, dev |-> DevOf(cr), cki |-> CkiOf(e.cki),
+                          usage |-> UsageOf(cr), source |-> cr.src, dev |-> DevOf(cr), cki |-> CkiOf(e.cki),
                           last |-> LastOf(cr), created |-> CreatedOf(cr)])
 EncRec(cr, e) == LET f == CredOf(cr, e)  b == KclEncode(f) IN
                  [ew |-> e.ew, cki |-> e.cki, magic |-> e.magic,
                   legal |-> CkiLegal(f.cki) /\ (e.magic = "std"),
                   km |-> f.km, kid |-> f.id, kh |-> f.kh, blob |-> b, cov |-> KclCoveredStart(b)]
-CredId(cr) == <<cr.ms, IF cr.hi THEN 1 ELSE 0, cr.ex, IF cr.pr THEN 1 ELSE 0, cr.ver>>
+CredId(cr) == <<cr.ms, IF cr.hi THEN 1 ELSE 0, cr.ex, IF cr.pr THEN 1 ELSE 0, cr.ver, cr.src>>
 OwnEnc == [ew |-> OwnEw, cki |-> OwnCki, magic |-> OwnMagic]
 OwnChoice(cr) == [ew |-> IF Len(Exps[cr.ex]) = 4 THEN "four" ELSE OwnEw, cki |-> OwnCki, magic |-> IF cr.pr THEN OwnMagic ELSE "std"]
 
@@ -71,7 +75,7 @@ OwnChoice(cr) == [ew |-> IF Len(Exps[cr.ex]) = 4 THEN "four" ELSE OwnEw, cki |->
 FlipSel(cr) == IF FlipLevel = 1 THEN cr.ver = 512 /\ cr.ex = 2 /\ cr.hi
                ELSE cr.ver = 512 \/ (cr.ex = 2 /\ cr.hi)
 
-FlipCreds == {x \in CredKeys : FlipSel(x)}
+FlipCreds == {x \in CredKeys : FlipSel(x) /\ x.src = 0}
 (* computed once: the blob in the encoding the code writes, whether it satisfies the specification's own rules, and the
    entry / part every covered byte belongs to *)
 FlipTab == TLCEval([cr \in FlipCreds |->
@@ -103,7 +107,7 @@ Init ==
             /\ c = <<"cred", cr>>
             /\ Emit([k |-> "cred", id |-> CredId(cr),
                      f |-> [ver |-> cr.ver, key |-> KeyOf(cr), dev |-> DevOf(cr), last |-> LastOf(cr), created |-> CreatedOf(cr),
-                            usage |-> 1, source |-> 0],
+                            usage |-> UsageOf(cr), source |-> cr.src],
                      encs |-> LET S == EncChoices(cr)
                                   RECURSIVE L(_)
                                   L(T) == IF T = {} THEN <<>> ELSE LET x == CHOOSE y \in T : TRUE IN <<EncRec(cr, x)>> \o L(T \ {x})
@@ -115,7 +119,7 @@ Init ==
             /\ \/ /\ c = <<"blob", cr>>
                   /\ Emit([k |-> "blob", id |-> CredId(cr), enc |-> er,
                            f |-> [ver |-> cr.ver, key |-> KeyOf(cr), dev |-> DevOf(cr), last |-> LastOf(cr), created |-> CreatedOf(cr),
-                                  usage |-> 1, source |-> 0]])
+                                  usage |-> UsageOf(cr), source |-> cr.src]])
                \/ \E o \in er.cov..(Len(er.blob) - 1), bit \in 0..7 :
                     LET loc == FlipTab[cr].loc[o] IN
                     /\ c = <<"flip", cr, o, bit>>
